@@ -25,7 +25,7 @@ from deeprob.spn.models.dgcspn import DgcSpn
 from deeprob.spn.layers.dgcspn import SpatialProductLayer, SpatialSumLayer
 from deeprob.spn.layers.ratspn import RegionGraphLayer
 
-torch.set_num_threads(2)
+torch.set_num_threads(1)
 LEAN_DIR = os.environ.get('TENSOR_LEAN_DIR', '/root/work/tensor/lean')
 
 
